@@ -27,10 +27,10 @@ def small_value(rng, t):
     return ("enum", v, None if unit else [small_value(rng, x) for x in ts])
 
 
-def gen_case(seed, cid, n_inputs, features=None, depth=3):
+def gen_case(seed, cid, n_inputs, features=None, depth=3, observe_all=False):
     rng = random.Random(seed)
     g = gen_prog.ProgGen(rng, max_depth=depth, features=features)
-    p = g.program()
+    p = g.program(observe_all=observe_all)
     args = []
     for i in range(n_inputs):
         if i % 2 == 0:
@@ -38,7 +38,8 @@ def gen_case(seed, cid, n_inputs, features=None, depth=3):
         else:
             args.append([T.rand_value(rng, t, 0.4) for _, t in p["params"]])
     return {"id": cid, "seed": seed, "src": p["src"], "prog": p["prog"], "params": p["params"], "ret": p["ret"],
-            "args": args, "stats": g.stats}
+            "args": args, "stats": g.stats,
+            "gen": {"n_inputs": n_inputs, "features": sorted(features) if features else None, "depth": depth, "observe_all": observe_all}}
 
 
 def impl_case(c, kind, dedup):
@@ -53,7 +54,7 @@ def model_case(c):
 
 def judge(c, impl, model, cfg, tally):
     fs = []
-    sub = {"op": "c01", "seed": c["seed"], "src": c["src"], "config": cfg}
+    sub = {"op": "c01", "seed": c["seed"], "gen": c.get("gen"), "src": c["src"], "config": cfg}
     if impl is None:
         return [Failure("oracle", "c01:harness-no-result", "the harness gave no result (abort?)", sub, None, None)]
     if model is None:
@@ -83,6 +84,9 @@ def judge(c, impl, model, cfg, tally):
                 break
             if reason != PANIC_CODES[m["panic"]]:
                 tally["other-reason"] += 1
+                if tally.get("strict_reason"):
+                    fs.append(Failure("oracle", f"c01:wrong-panic-reason:{m['panic']}->{reason}", f"the first failing operation of the source program is {m['panic']} but the circuit reports reason code {reason}", one, m, out[:40]))
+                    break
         else:
             tally["value"] += 1
             if flag != "0":
@@ -97,19 +101,14 @@ def judge(c, impl, model, cfg, tally):
     return fs
 
 
-def run(ctx):
-    quick = ctx.tier == "quick"
-    ctx.audit(PROP_MODULES)
-    failures = ctx.proof_failures()
-    ok, log = ctx.build_harness()
-    if not ok:
-        failures.append(Failure("model", "harness-build-failed", "cargo build of the harness failed: " + log[-400:]))
-        return common.finish(ctx, failures, {"evaluations": 0, "distinct_nontrivial": 0, "samples": []}, [], "proof")
-    n = 1500 if quick else 30000
-    cases = [gen_case(ctx.rng.randrange(1 << 48), i, 6) for i in range(n)]
-    tally = {"rejected": 0, "stuck": 0, "panic": 0, "value": 0, "other-reason": 0}
+def collect(ctx, n, gen_kwargs, prefix="c01", configs=None, strict_reason=False):
+    """generate programs, run them on /repo (several circuit configurations) and on the Lean source semantics;
+    returns (failures, tally, generator statistics, sample cases)"""
+    failures = []
+    cases = [gen_case(ctx.rng.randrange(1 << 48), i, 6, **gen_kwargs) for i in range(n)]
+    tally = {"rejected": 0, "stuck": 0, "panic": 0, "value": 0, "other-reason": 0, "strict_reason": strict_reason}
     model, _, _ = ctx.run_model([model_case(c) for c in cases], timeout=3000)
-    configs = [("ssa", True), ("reg", False), ("ssa", False), ("reg", True)]
+    configs = configs or [("ssa", True), ("reg", False), ("ssa", False), ("reg", True)]
     stats = {}
     for c in cases:
         for k, v in c["stats"].items():
@@ -120,9 +119,24 @@ def run(ctx):
         for c in sel:
             r = impl.get(c["id"])
             if r is not None and (r.get("hang") or "died" in r):
-                failures.append(Failure("oracle", "c01:compile-hangs-or-aborts", f"compiling / evaluating does not return: {r}", {"op": "c01", "seed": c["seed"], "src": c["src"]}, None, r))
+                failures.append(Failure("oracle", prefix + ":compile-hangs-or-aborts", f"compiling / evaluating does not return: {r}", {"op": "c01", "seed": c["seed"], "gen": c["gen"], "src": c["src"]}, None, r))
                 continue
-            failures += judge(c, r, model.get(c["id"]), f"{kind},dedup={dedup}", tally)
+            for f in judge(c, r, model.get(c["id"]), f"{kind},dedup={dedup}", tally):
+                f.signature = f.signature.replace("c01:", prefix + ":", 1)
+                failures.append(f)
+    del tally["strict_reason"]
+    return failures, tally, stats, cases
+
+
+def explore(ctx, prop_modules, n, gen_kwargs, rule, assumptions, prefix="c01", configs=None, strict_reason=False):
+    ctx.audit(prop_modules)
+    failures = ctx.proof_failures()
+    ok, log = ctx.build_harness()
+    if not ok:
+        failures.append(Failure("model", "harness-build-failed", "cargo build of the harness failed: " + log[-400:]))
+        return common.finish(ctx, failures, {"evaluations": 0, "distinct_nontrivial": 0, "samples": []}, [], "proof")
+    fs, tally, stats, cases = collect(ctx, n, gen_kwargs, prefix, configs, strict_reason)
+    failures += fs
     seen, uniq = set(), []
     for f in failures:
         if f.signature not in seen:
@@ -130,12 +144,50 @@ def run(ctx):
     coverage = {
         "evaluations": tally["value"] + tally["panic"],
         "distinct_nontrivial": tally["value"],
-        "rule": "type-directed random programs (all literal types written out; helpers, let / let mut, shadowing, assignment to "
-                "elements and fields, if / match / for as statements and expressions, casts, checked arithmetic, shifts, aggregates) "
-                "whose syntax tree is built by the generator and printed to text; 6 argument tuples each (small values and boundary "
-                "values); compiled by /repo as SSA and register circuit with and without gate de-duplication, evaluated, and compared "
-                "with the Lean source semantics run on the generator's tree. non-trivial = runs that complete with a value",
+        "rule": rule,
         "distribution": {"runs": tally, "generator": stats},
         "samples": [{"src": cases[0]["src"]}, {"src": cases[1]["src"]}],
     }
-    return common.finish(ctx, uniq, coverage, ["programs of nesting depth <= 3, arrays of at most 4 elements"], "proof", search=None)
+    return common.finish(ctx, uniq, coverage, assumptions, "proof", search=None)
+
+
+def replay(ctx, path, prop_modules=None):
+    """regenerates the program of a replay file from its seed and runs it again in all configurations"""
+    d = json.load(open(path))
+    case = d.get("case") or {}
+    if "seed" not in case:
+        print("replay file has no executable case:", d.get("what"))
+        return 1
+    ctx.build_harness()
+    ctx.build_lean(prop_modules or PROP_MODULES)
+    g = case.get("gen") or {}
+    c = gen_case(case["seed"], 0, g.get("n_inputs", 6), features=set(g["features"]) if g.get("features") else None,
+                 depth=g.get("depth", 3), observe_all=g.get("observe_all", False))
+    if c["src"] != case.get("src"):
+        print("note: the generator no longer produces the recorded program from this seed; running the recorded text is not possible without its tree")
+    model, _, _ = ctx.run_model([model_case(c)])
+    bad = False
+    tally = {"rejected": 0, "stuck": 0, "panic": 0, "value": 0, "other-reason": 0}
+    for kind, dedup in [("ssa", True), ("reg", False), ("ssa", False), ("reg", True)]:
+        impl = common.run_lines_guarded(common.GVH, [impl_case(c, kind, dedup)], per_case_timeout=30.0)
+        for f in judge(c, impl.get(0), model.get(0), f"{kind},dedup={dedup}", tally):
+            print(f"{f.kind}: {f.signature}: {f.what}  [{kind},dedup={dedup}]")
+            bad = bad or f.kind == "oracle"
+    print(c["src"])
+    print("runs:", tally)
+    if bad:
+        print(f"VIOLATION property={ctx.prop} replay={path}")
+        return 1
+    return 0
+
+
+RULE = ("type-directed random programs (all literal types written out; helpers, let / let mut, shadowing, assignment to "
+        "elements and fields, if / match / for as statements and expressions, casts, checked arithmetic, shifts, aggregates) "
+        "whose syntax tree is built by the generator and printed to text; 6 argument tuples each (small values and boundary "
+        "values); compiled by /repo as SSA and register circuit with and without gate de-duplication, evaluated, and compared "
+        "with the Lean source semantics run on the generator's tree. non-trivial = runs that complete with a value")
+
+
+def run(ctx):
+    n = 1500 if ctx.tier == "quick" else 30000
+    return explore(ctx, PROP_MODULES, n, {}, RULE, ["programs of nesting depth <= 3, arrays of at most 4 elements"])
